@@ -123,187 +123,20 @@ theorem own_unit_kept (strict : Bool) (r r' : Reg) (f : Frame)
 
 /-! ## every operation preserves `Good` (frame effects universally quantified) -/
 
-theorem assignUnits_keys (r : Reg) (m : List (Str × Str)) : keys (assignUnits r m).1 = keys r := by
-  induction m generalizing r with
-  | nil => simp [assignUnits]
-  | cons p rest ih =>
-    obtain ⟨n, u⟩ := p
-    unfold assignUnits
-    cases hg : get r n with
-    | none => simp
-    | some cm =>
-      simp only
-      rw [ih]
-      exact keys_set_mem r n _ (get_some_mem r n cm hg)
+/-- **every operation preserves the invariant**, whatever frame it leaves behind (proved in
+    Lemmas/Meta.lean operation by operation: `addColumn_good`, `setUnits_good`, `make_good`,
+    `finalize_good`, …; restated here so that the audit lists it with the property) -/
+theorem step_good (t : Tbl) (op : Op) (hg : Good t.info) : Good (step t op).1.info := Meta.step_good t op hg
 
-theorem setUnits_good (i : Info) (f : Frame) (m : List (Str × Str)) (hg : Good i) : Good (setUnits i f m).1 := by
-  unfold setUnits
-  have hc := checkDataframe_good i f hg
-  cases h : checkDataframe i f with
-  | mk i1 e =>
-    rw [h] at hc
-    cases e with
-    | some e => simpa using hc
-    | none =>
-      simp only
-      have hk := assignUnits_keys i1.reg m
-      cases ha : assignUnits i1.reg m with
-      | mk r e2 =>
-        rw [ha] at hk
-        simp only at hk ⊢
-        exact ⟨by simp only; rw [hk]; exact hc.nodup, by
-          intro f0 hf0 he; simp only at hf0 ⊢; rw [hk]; exact hc.keysOk f0 hf0 he⟩
-
-theorem addColumn_good (i : Info) (f : Frame) (n : Str) (u du fm : Option Str) (hg : Good i) :
-    Good (addColumn i f n u du fm).1 := by
-  have base : Good { i with last := none } := ⟨hg.nodup, by intro f0 hf0; simp at hf0⟩
-  unfold addColumn
-  simp only
-  cases hfind : f.cols.find? (fun c => c.name = n) with
-  | none => simpa using base
-  | some c =>
-    simp only
-    cases u with
-    | none =>
-      simp only
-      cases hu : unitFromKind c.kind with
-      | error e => simpa using base
-      | ok u0 =>
-        simp only
-        cases hget : get i.reg n with
-        | none => exact ⟨by simpa using nodup_keys_set i.reg n _ hg.nodup, by intro f0 hf0; simp at hf0⟩
-        | some col => exact ⟨by simpa using nodup_keys_set i.reg n _ hg.nodup, by intro f0 hf0; simp at hf0⟩
-    | some u0 =>
-      simp only
-      cases hget : get i.reg n with
-      | none => exact ⟨by simpa using nodup_keys_set i.reg n _ hg.nodup, by intro f0 hf0; simp at hf0⟩
-      | some col => exact ⟨by simpa using nodup_keys_set i.reg n _ hg.nodup, by intro f0 hf0; simp at hf0⟩
-
-theorem nodup_zipReg (ps : List (Str × Str)) (r : Reg) (h : (keys r).Nodup) : (keys (zipReg ps r)).Nodup := by
-  induction ps generalizing r with
-  | nil => simpa [zipReg] using h
-  | cons p rest ih => obtain ⟨n, u⟩ := p; unfold zipReg; exact ih _ (nodup_keys_set r n _ h)
-
-theorem nodup_mapReg (m : List (Str × Str)) (ns : List Str) (r : Reg) (h : (keys r).Nodup) :
-    (keys (mapReg m ns r)).Nodup := by
-  induction ns generalizing r with
-  | nil => simpa [mapReg] using h
-  | cons n rest ih =>
-    unfold mapReg
-    cases hl : mapLookup m n with
-    | none => simpa using ih r h
-    | some u => simpa using ih _ (nodup_keys_set r n _ h)
-
-theorem fresh_good (r : Reg) (strict : Bool) (h : (keys r).Nodup) : Good { reg := r, last := none, strict := strict } :=
-  ⟨h, by intro f0 hf0; simp at hf0⟩
-
-theorem attach_good (reg : Reg) (strict : Bool) (f : Frame) (i : Info) (hnd : (keys reg).Nodup)
-    (h : attach reg strict f = .ok i) : Good i := by
-  unfold attach at h
-  have hc := checkDataframe_good _ f (fresh_good reg strict hnd)
-  cases hcd : checkDataframe { reg := reg, last := none, strict := strict } f with
-  | mk i1 e =>
-    rw [hcd] at h hc
-    cases e with
-    | none => simp at h; rw [← h]; exact hc
-    | some e => simp at h
-
-theorem nodup_makeReg (f : Frame) (us : Option (List Str)) (um : Option (List (Str × Str))) :
-    (keys (makeReg f us um)).Nodup := by
-  unfold makeReg
-  cases us with
-  | some u => exact nodup_zipReg _ [] (by simp [keys])
-  | none => cases um with
-    | some m => exact nodup_mapReg m _ [] (by simp [keys])
-    | none => simp [keys]
+theorem run_good (t : Tbl) (ops : List Op) (hg : Good t.info) : Good (run t ops).info := Meta.run_good t ops hg
 
 /-- a constructed table (`make_table_dataframe` with any `units` / `unit_map`) starts `Good` -/
 theorem make_good (f : Frame) (us : Option (List Str)) (um : Option (List (Str × Str))) (strict : Bool) (i : Info)
-    (h : make f us um strict = .ok i) : Good i := by
-  unfold make at h
-  by_cases hb : bothTruthy us um = true
-  · simp [hb] at h
-  · simp only [hb] at h
-    exact attach_good _ strict f i (nodup_makeReg f us um) h
-
-theorem nodup_combineOne (out : List Str) (acc src r : Reg) (h : (keys acc).Nodup)
-    (hc : combineOne out acc src = .ok r) : (keys r).Nodup := by
-  induction src generalizing acc with
-  | nil => simp [combineOne] at hc; rw [← hc]; exact h
-  | cons p rest ih =>
-    obtain ⟨n, c⟩ := p
-    unfold combineOne at hc
-    by_cases ho : out.contains n = true
-    · simp only [ho, Bool.not_true, Bool.false_eq_true, if_false] at hc
-      cases hg : get acc n with
-      | none => simp only [hg] at hc; exact ih _ (nodup_keys_set acc n _ h) hc
-      | some col =>
-        simp only [hg] at hc
-        by_cases hu : col.unit ≠ c.unit
-        · simp [hu] at hc
-        · simp only [hu, if_false] at hc
-          exact ih _ (nodup_keys_set acc n _ h) hc
-    · have ho' : out.contains n = false := by simpa using ho
-      simp only [ho', Bool.not_false, if_true] at hc
-      exact ih acc h hc
-
-theorem nodup_combine (out : List Str) (acc : Reg) (srcs : List Reg) (r : Reg) (h : (keys acc).Nodup)
-    (hc : combine out acc srcs = .ok r) : (keys r).Nodup := by
-  induction srcs generalizing acc with
-  | nil => simp [combine] at hc; rw [← hc]; exact h
-  | cons s rest ih =>
-    unfold combine at hc
-    cases h1 : combineOne out acc s with
-    | error e => simp [h1] at hc
-    | ok acc' =>
-      simp only [h1] at hc
-      exact ih acc' (nodup_combineOne out acc s acc' h h1) hc
+    (h : make f us um strict = .ok i) : Good i := Meta.make_good f us um strict i h
 
 /-- a derived frame's info (`__finalize__` with *any* source registers, any result frame) starts `Good` -/
 theorem finalize_good (srcs : List Reg) (strict : Bool) (f : Frame) (i : Info)
-    (h : finalize srcs strict f = .ok i) : Good i := by
-  unfold finalize at h
-  cases hc : combine f.names [] srcs with
-  | error e => simp [hc] at h
-  | ok reg =>
-    simp only [hc] at h
-    exact attach_good reg strict f i (nodup_combine _ [] srcs reg (by simp [keys]) hc) h
-
-/-- **every operation preserves the invariant**, whatever frame it leaves behind -/
-theorem step_good (t : Tbl) (op : Op) (hg : Good t.info) : Good (step t op).1.info := by
-  cases op with
-  | mutate f => simpa [step] using hg
-  | consult => simpa [step, consult] using checkDataframe_good t.info t.frame hg
-  | addColumn n u du fm f => simpa [step] using addColumn_good t.info f n u du fm hg
-  | setUnits m => simpa [step] using setUnits_good t.info t.frame m hg
-  | setAllUnits us => simpa [step, setAllUnits] using setUnits_good t.info t.frame _ hg
-  | setColUnit n u =>
-    by_cases hc : n ∈ t.frame.names
-    · simpa [step, setColUnit, hc] using setUnits_good t.info t.frame [(n, u)] hg
-    · simpa [step, setColUnit, hc] using hg
-  | rewrap us st =>
-    unfold step rewrap
-    have hc := checkDataframe_good t.info t.frame hg
-    cases h : checkDataframe t.info t.frame with
-    | mk i1 e =>
-      rw [h] at hc
-      cases e with
-      | some e => simpa using hc
-      | none =>
-        simp only
-        cases hm : make t.frame (some (us.getD (units i1.reg))) none (st.getD i1.strict) with
-        | ok i2 => simpa using make_good _ _ _ _ i2 hm
-        | error e => simpa using hc
-  | derive srcs st f =>
-    unfold step
-    cases h : finalize srcs st f with
-    | ok i2 => simpa [h] using finalize_good srcs st f i2 h
-    | error e => simpa [h] using hg
-
-theorem run_good (t : Tbl) (ops : List Op) (hg : Good t.info) : Good (run t ops).info := by
-  induction ops generalizing t with
-  | nil => simpa [run] using hg
-  | cons op ops ih => unfold run; exact ih _ (step_good t op hg)
+    (h : finalize srcs strict f = .ok i) : Good i := Meta.finalize_good srcs strict f i h
 
 /-! ## the property over histories -/
 
